@@ -669,8 +669,16 @@ func createConnHandler(
 							break
 						}
 					}
+					if inErr == io.EOF {
+						// The client half-closed: tell the backend.
+						if err := clientStream.CloseSend(); err != nil {
+							inErr = err
+						}
+					}
 					wg.Done()
 				}()
+			} else if err := clientStream.CloseSend(); err != nil {
+				return err
 			}
 			var outErr error
 			for {
